@@ -11,7 +11,7 @@ Tie to the code: `Drv/C18` runs `SL.Post.search` (which calls this `collapse`) o
 from the real index and the harness compares it with the real response; the statement's
 predicates are evaluated on the real response against the uncollapsed full ranking.
 
-What the code does *before* `collapse_hits` matters too: only `max(limit, candidate_size) + 1`
+What the code does *before* `collapse_hits` matters too: only `max(limit, candidate_size, window_size) + 1`
 hits are fetched (`SL.Post.fetch`), so the "group" the code sees is the group among the fetched
 hits.  `inner_beyond_fetched_witness` and `rep_beyond_fetched_witness` are the negative
 witnesses for the statement read over all matching documents.
